@@ -149,7 +149,18 @@ def main(prop, tier):
             e = json.loads(x)
             if e["ev"] == "edf":
                 outcomes[e["outcome"]] = outcomes.get(e["outcome"], 0) + 1
-        cov = {"states": max(r.distinct + mst, 1), "transitions": max(r.generated + mtr, 1), "traces_validated_against_impl": total - len(violations),
+        seen = set(); nontrivial = 0
+        for x in lines:
+            e = json.loads(x)
+            if not e.get("changed") or (e["ev"] == "live" and not e["found"]):
+                continue
+            key = (e["ev"], e["l"]["frame"] if e["ev"] == "live" else e["e"]["value"], e["hash"], e["l"]["max"] if e["ev"] == "live" else 0)
+            if key not in seen:
+                seen.add(key); nontrivial += 1
+        cov = {"evaluations": total, "distinct_nontrivial": nontrivial,
+               "rule": "cases come from the mutation grammar (systematic positions and values per tier, plus seeded random frames); a case counts as non-trivial and distinct when the bytes "
+                       "actually injected / decoded differ from the honest ones and their hash (with the frame kind or corpus value) was not seen before in this run",
+               "states": max(r.distinct + mst, 1), "transitions": max(r.generated + mtr, 1), "traces_validated_against_impl": total - len(violations),
                "samples": [live[0], edf[rng.randrange(len(edf))]], "live_cases": len(live), "decoder_cases": len(edf), "decoder_outcomes": outcomes,
                "live_cases_without_their_frame": notfound, "clauses": CLAUSES + ["NoCrash"], "exhaustive": False}
         assumptions = ["the mutation grammar: length field (absolute and relative values), magic, version, type byte, truncation at every offset 8-59, body byte flips, compressed-envelope size and method, random frames; decoder: truncation, 0xff / 0x00 at every offset < 130, type tags, duplicated tails",
